@@ -30,8 +30,19 @@ def r1(ctx):
     callers = {c.fn.name for c in pdb.callers("tr_send_all")}
     ctx.check(callers == {"rtr_send_pdu"}, "C14.R1", "tr_send_all-callers", "rtrlib/rtr/packets.c", "tr_send_all called from %s" % sorted(callers),
               key="C14.R1:callers")
-    raw = {c.fn.name for c in pdb.callers("tr_send")}
-    ctx.check(raw == {"tr_send_all"}, "C14.R1", "tr_send-callers", "rtrlib/transport/transport.c", "tr_send called from %s" % sorted(raw), key="C14.R1:raw")
+    # a single send attempt (tr_send, or socket->send_fp written out) is made only by tr_send and the tr_send_all loop
+    def is_raw(f, inst):
+        if inst.op != "call":
+            return False
+        if inst.callee == "tr_send":
+            return True
+        if inst.callee is None and inst.d.get("fptr"):
+            e = vf.expr(f, inst["fptr"])
+            return e[0] == "load" and vf.last_field(e[1]) == "tr_socket.send_fp"
+        return False
+    raw = {f.name for f in pdb.all_functions() for i in f.all_insts() if is_raw(f, i)}
+    ctx.check(raw <= {"tr_send", "tr_send_all"} and "tr_send_all" in raw, "C14.R1", "tr_send-callers", "rtrlib/transport/transport.c",
+              "single send attempts made in %s" % sorted(raw), key="C14.R1:raw")
     fn = pdb.fn("rtr_send_pdu")
     ctx.touch(fn)
     sends = fn.calls("tr_send_all")
@@ -46,8 +57,8 @@ def r1(ctx):
         ctx.check(good, "C14.R1", "rtr_send_pdu:copy-convert-send", s.loc(),
                   "private buffer of len bytes <- memcpy(pdu, len); converted once; tr_send_all(buffer, len)", key="C14.R1:rtr_send_pdu")
     conv = pdb.fn("rtr_pdu_to_network_byte_order")
-    order = [c.callee for c in conv.calls() if c.callee]
-    ctx.check(order == ["rtr_pdu_footer_to_network_byte_order", "rtr_pdu_header_to_network_byte_order"], "C14.R1", "footer-before-header",
+    order = [rfc8210.conv_kind(pdb, conv, c) or c.callee for c in conv.calls() if c.callee]
+    ctx.check(order == [("footer", "net"), ("header", "net")], "C14.R1", "footer-before-header",
               "%s:%d" % (conv.relfile, conv.line), "conversion order %s (the footer conversion still reads type/version/lengths in host order)" % order,
               key="C14.R1:order")
 
@@ -263,13 +274,14 @@ def r5(ctx, retsets):
             src = vf.root_of(vf.expr(fn, inst.args[1]))
             if isinstance(src, tuple) and src[0] == "alloca":
                 return ["=hdr:HOST"]
-        if cal == "rtr_pdu_header_to_network_byte_order" and vf.expr(fn, inst.args[0]) == ("arg", 1):
+        ck = rfc8210.conv_kind(pdb, fn, inst)
+        if ck == ("header", "net") and vf.expr(fn, inst.args[0]) == ("arg", 1):
             if st.get("hdr") != "HOST":
                 bad.append((inst, "header converted to network order although it already is"))
             return ["=hdr:NET"]
-        if cal == "rtr_pdu_header_to_host_byte_order" and vf.expr(fn, inst.args[0]) == ("arg", 1):
+        if ck == ("header", "host") and vf.expr(fn, inst.args[0]) == ("arg", 1):
             return ["=hdr:HOST"]
-        if cal == "rtr_pdu_footer_to_host_byte_order" and vf.expr(fn, inst.args[0]) == ("arg", 1):
+        if ck == ("footer", "host") and vf.expr(fn, inst.args[0]) == ("arg", 1):
             return ["=ftr:HOST"]
         if cal == "rtr_send_error_pdu_from_network":
             nsites.add(inst.id)
@@ -303,9 +315,9 @@ def r5(ctx, retsets):
         if inst.op == "call" and inst.callee:
             if inst.callee.startswith("llvm.memcpy") and vf.expr(fn, inst.args[0]) == ("arg", 1) and vf.root_of(vf.expr(fn, inst.args[1]))[0] == "alloca":
                 return ["=hdr:HOST"]
-            if inst.callee == "rtr_pdu_header_to_network_byte_order":
+            if rfc8210.conv_kind(pdb, fn, inst) == ("header", "net"):
                 return ["=hdr:NET"]
-            if inst.callee == "rtr_pdu_footer_to_host_byte_order":
+            if rfc8210.conv_kind(pdb, fn, inst) == ("footer", "host"):
                 return ["=ftr:HOST"]
         return None
     outs, fl = es.count_effects(fn, pdb, classify2, retsets, init=[("hdr", "NET"), ("ftr", "NET")])
@@ -327,8 +339,8 @@ def r6(ctx, retsets):
                 ok = vf.expr(fn, inst.args[3]) == ("arg", 3) and vf.expr(fn, inst.args[4]) == ("arg", 4) and vf.expr(fn, inst.args[5]) == ("arg", 5) \
                     and flow.av_single(E.val(inst.args[2])) == ln
                 return ["forward" if ok else "forward_changed"]
-            if inst.op == "call" and inst.callee in ("rtr_pdu_header_to_network_byte_order", "rtr_pdu_to_network_byte_order"):
-                return ["conv:" + ("header" if "header" in inst.callee else "all")]
+            if rfc8210.conv_kind(pdb, fn, inst) in (("header", "net"), ("all", "net")):
+                return ["conv:" + rfc8210.conv_kind(pdb, fn, inst)[0]]
             return None
         outs, fl = es.count_effects(fn, pdb, classify, retsets, cell={2: ln})
         exp = {"forward": 1}
@@ -377,9 +389,12 @@ def r6(ctx, retsets):
             return None
         es.count_effects(f, pdb, classify, retsets, init=[("rep", "0")], cap=96)
         for s in sites:
-            n += 1
             stt = status.get(s.id, set())
-            good = bool(stt) and "0" not in stt
+            if not stt:
+                # no evaluated path reaches this copy of the call (e.g. an inlined error handler entered with a fixed code)
+                continue
+            n += 1
+            good = "0" not in stt
             ctx.check(good, "C14.R6", "fatal-after-report:%s@%d" % (f.name, [x.id for x in sites].index(s.id) + 1), s.loc(),
                       "report status on the paths reaching this RTR_ERROR_FATAL: %s (1 = report sent, internal = allocation failure)" % sorted(stt),
                       key="C14.R6:fatal:%s:%d" % (f.name, [x.id for x in sites].index(s.id) + 1))
